@@ -443,6 +443,11 @@ def check(run, F, tier):
                     undec = "size() of %s is not the length of its byte vector in this configuration" % val[1].split("::")[-1]
                     continue
                 size = ({}, 0)
+                if lf.endswith("::decode_stream") and any(it[0] == "slice" and "('arg'," in repr(exp(it[1])) for it in val[3][0][1]):
+                    # a variable-width leaf that returns the accepted bytes themselves: consumed == size() then holds by
+                    # construction and says nothing about minimality - the rule has no verdict on this shape of the decoder
+                    undec = "the returned value stores the accepted input bytes: consumed == size() is trivial here, minimality is not decided by this rule"
+                    continue
                 for it in val[3][0][1]:
                     if it[0] != "slice":
                         size = None
